@@ -110,6 +110,7 @@ Definition w_cast_ := [99;97;115;116].
 Definition w_mem_ := [109;101;109].
 Definition w_xinit := [120;105;110;105;116].
 Definition w_xreads := [120;114;101;97;100;115].
+Definition w_xclear := [120;99;108;101;97;114].
 Definition w_xreadf := [120;114;101;97;100;102].
 Definition w_xwritef := [120;119;114;105;116;101;102].
 
@@ -330,6 +331,7 @@ Definition run_line (w : world) (ln : bytes) : world * list bytes * bool :=
             (* Config::Config(): destructor and hook registered *)
             (mkW_ (set_chook (set_dtor (w_cfg w) true) (Some WRAPPER)) (w_fs w) (w_dev w) (w_loc w),
              [[82;32;117;110;105;116]], false)
+          else if is_w cmd w_xclear then run_line_c w w_clear        (* Config::clear() is config_clear() *)
           else run_line_c w ln
       | [cmd; a] =>
           if is_w cmd w_xreads then x_io (run_line_c w (w_reads ++ [32] ++ a))
